@@ -518,8 +518,40 @@ func runLockGuard(c *core.Ctx, prefix string) {
 		if reason, ok := guardExceptions[fr.Field]; ok {
 			// the exception only covers writers named Close / Shutdown of the server type
 			okWriters := true
+			isLifecycle := func(name string) bool {
+				return strings.HasSuffix(name, ").Close") || strings.HasSuffix(name, ").Shutdown")
+			}
+			// …or a function of the server that only Close / Shutdown call (the shared ‘close the store’ step)
+			var onlyFromLifecycle func(name string, depth int) bool
+			onlyFromLifecycle = func(name string, depth int) bool {
+				if isLifecycle(name) {
+					return true
+				}
+				if depth > 2 {
+					return false
+				}
+				var fn *ssa.Function
+				for _, f := range serverFuncs(c) {
+					if c.P.FuncName(f) == name {
+						fn = f
+					}
+				}
+				if fn == nil || fn.Parent() != nil {
+					return false
+				}
+				sites := c.P.Callers(fn)
+				if len(sites) == 0 {
+					return false
+				}
+				for _, site := range sites {
+					if site.Common().StaticCallee() != fn || !onlyFromLifecycle(c.P.FuncName(site.Parent()), depth+1) {
+						return false
+					}
+				}
+				return true
+			}
 			for _, m := range e.Accesses[fr.Field] {
-				if m.Write && !m.Unpub && !(strings.HasSuffix(m.Func, ").Close") || strings.HasSuffix(m.Func, ").Shutdown")) {
+				if m.Write && !m.Unpub && !onlyFromLifecycle(m.Func, 0) {
 					okWriters = false
 				}
 			}
